@@ -74,6 +74,13 @@ impl BetTable {
         compressed_size: u64,
         key: u32,
     ) -> Result<Self> {
+        // The size comes from the archive header: never allocate more than the file holds
+        let stream_len = reader.seek(SeekFrom::End(0))?;
+        if offset > stream_len || compressed_size > stream_len - offset {
+            return Err(Error::invalid_format(
+                "BET table extends beyond the end of the archive",
+            ));
+        }
         reader.seek(SeekFrom::Start(offset))?;
 
         // Read the compressed/encrypted data
@@ -181,6 +188,19 @@ impl BetTable {
         // Parse the rest of the table - data starts after extended header + BET header
         let data_start = 12 + std::mem::size_of::<BetHeader>();
         let mut cursor = std::io::Cursor::new(&table_data[data_start..]);
+
+        // All counts come from the (possibly damaged) table header: they must fit into
+        // the table before anything is allocated for them
+        let available = (table_data.len() - data_start) as u64;
+        let file_table_bits = header.file_count as u64 * header.table_entry_size as u64;
+        let needed = header.flag_count as u64 * 4
+            + file_table_bits.div_ceil(8)
+            + (header.bet_hash_array_size / 8) as u64 * 8;
+        if needed > available {
+            return Err(Error::invalid_format(format!(
+                "BET table data too small: have {available} bytes, need {needed} bytes"
+            )));
+        }
 
         // Read file flags
         let mut file_flags = Vec::with_capacity(header.flag_count as usize);
